@@ -11,6 +11,7 @@ import Driver.C12
 import Driver.C05
 import Driver.C09
 import Driver.C11
+import Driver.C18
 open AITB
 
 def handleLine (line : String) : String :=
@@ -30,6 +31,7 @@ def handleLine (line : String) : String :=
   | "C05" :: rest => DrvC05.handle rest
   | "C09" :: rest => DrvC09.handle rest
   | "C11" :: rest => DrvC11.handle rest
+  | "C18" :: rest => DrvC18.handle rest
   | _ => "bad-op"
 
 partial def loop (h : IO.FS.Stream) (out : IO.FS.Stream) : IO Unit := do
